@@ -44,6 +44,16 @@ func genC04(r *Runner) {
 			}
 		}
 	}
+	// a'. signing times with a fraction of a second against invalidity dates on the whole seconds around them
+	for _, frac := range []time.Duration{1, 400 * time.Millisecond, 500 * time.Millisecond, 600 * time.Millisecond, 999999999} {
+		for _, b := range []string{"revoked-inv-equal", "revoked-inv-next-whole-second", "revoked", "revoked-at-after-signing"} {
+			for _, mode := range []string{"full", "ocsp"} {
+				c := one(ocspLevel(0, []string{b}), 1, "sub-second-signing-time:"+b)
+				c.stFrac, c.mode = frac, mode
+				cases = append(cases, c)
+			}
+		}
+	}
 	// b. every ordering of 2 and 3 responders over the representative classes
 	for n := 2; n <= 3; n++ {
 		for _, seq := range sequences(ocspCore, n) {
@@ -206,6 +216,12 @@ func (e entryAbs) spec(k *crlCtx) EntrySpec {
 	case "after-1s":
 		t := stRef.Add(time.Second)
 		s.InvDate = &t
+	case "next-whole-second":
+		t := stRef.Truncate(time.Second).Add(time.Second)
+		s.InvDate = &t
+	case "same-whole-second":
+		t := stRef.Truncate(time.Second)
+		s.InvDate = &t
 	case "malformed":
 		t := stRef.Add(time.Hour)
 		s.InvDate, s.InvBad = &t, "malformed"
@@ -260,6 +276,24 @@ func genC10(r *Runner) {
 							cases = append(cases, entriesCase("single", []entryAbs{e}, nil, false, stZero))
 						}
 					}
+				}
+			}
+		}
+	}
+	// signing times with a fraction of a second against invalidity dates on the whole seconds around them
+	for _, frac := range []time.Duration{0, 1, 400 * time.Millisecond, 500 * time.Millisecond, 600 * time.Millisecond, 999999999} {
+		for _, inv := range []string{"next-whole-second", "same-whole-second", "none"} {
+			for _, reason := range []int{1, 6} {
+				for _, inDelta := range []bool{false, true} {
+					e := entryAbs{true, reason, 1, inv, false, ""}
+					var c chainCase
+					if inDelta {
+						c = entriesCase("sub-second-signing-time", nil, []entryAbs{e}, true, false)
+					} else {
+						c = entriesCase("sub-second-signing-time", []entryAbs{e}, nil, false, false)
+					}
+					c.stFrac = frac
+					cases = append(cases, c)
 				}
 			}
 		}
@@ -568,6 +602,7 @@ func genC12(r *Runner) {
 		cases = append(cases, c)
 	}
 	cases = append(cases, cancelCases(rng)...)
+	cases = append(cases, realFetcherDeltaCases()...)
 	runChainCases(r, cases)
 }
 
@@ -665,6 +700,7 @@ func genC06(r *Runner) {
 		}
 	}
 	cases = append(cases, cancelCases(rng)...)
+	cases = append(cases, realFetcherDeltaCases()...)
 	runChainCases(r, cases)
 }
 
@@ -701,6 +737,24 @@ func cancelCases(rng *rand.Rand) []chainCase {
 			c := randomMultiCase(rng, "cancel-"+cancel+"-multi", []string{"good", "revoked", "unknown", "transport-error"}, []string{"clean", "lists-cert", "fetch-error"}, 1+rng.Intn(3), 2)
 			c.mode = "full"
 			c.cancel = cancel
+			cases = append(cases, c)
+		}
+	}
+	return cases
+}
+
+// realFetcherDeltaCases: bundles with a delta list served over HTTP through the real fetcher (the base list says where its
+// delta is), undisturbed and with the caller's context cancelled when the second request — the one for the delta — arrives
+func realFetcherDeltaCases() []chainCase {
+	var cases []chainCase
+	for _, kb := range []string{"delta-ok", "delta-lists-cert", "base-lists-delta-removes", "many-entries-delta-lists-cert", "delta-expired", "delta-n5-i4", "clean", "lists-cert"} {
+		for _, cancel := range []string{"", "at-request-2", "after"} {
+			if cancel == "at-request-2" && !strings.Contains(kb, "delta") {
+				continue // no delta, no second request
+			}
+			l := levelSpec{crlURLs: urlsN(crlURL, 0, 1), crlBeh: []string{kb}}
+			c := one(l, 2, "real-fetcher-delta"+ifs(cancel != "", "-cancel-"+cancel, ""))
+			c.realFetcher, c.cancel = true, cancel
 			cases = append(cases, c)
 		}
 	}
